@@ -74,7 +74,7 @@ def bind_state_args(prog, state_cls: ClassInfo, args: List[ast.expr], keywords: 
 
 def canonical_param(st: ClassInfo, p: str) -> str:
     """Name of the base-class constructor parameter that ``p`` is handed to by ``super().__init__(...)``."""
-    init = st.methods.get('__init__')
+    init = st.vmethods.get('__init__')
     if init is None:
         return p
     for n in ast.walk(init.node):
@@ -83,7 +83,7 @@ def canonical_param(st: ClassInfo, p: str) -> str:
             base_init = None
             for k in st.mro_classes()[1:]:
                 if '__init__' in k.methods:
-                    base_init = k.methods['__init__']
+                    base_init = k.vmethods['__init__']
                     base_cls = k
                     break
             if base_init is None:
@@ -154,7 +154,7 @@ def run(chk: Check) -> None:
             chk.ob('DISP-command', ac, lbl.member == want, f'{c.name} -> {lbl.member} (property: {want})', node=call, kind='command-to-label')
         chk.ob('DISP-command', ac, lbl.member in running_allowed, f'{lbl.member} is in Running.ALLOWED', node=call, kind='label-allowed-from-running')
         # FWD: every captured field of the command reaches the state constructor with the right star-kind
-        fields = captured_fields(c.methods['__init__'])
+        fields = captured_fields(c.vmethods['__init__'])
         state_classes = by_label.get(lbl.member, [])
         chk.need(bool(state_classes), f'no state class labelled {lbl.member}')
         for st in state_classes:
@@ -198,10 +198,10 @@ def run(chk: Check) -> None:
         sb = {}
         for k_ in c.mro_classes():
             if 'save_instance_state' in k_.methods:
-                for key, attrs in saved_bindings(chk.ctx, prog.view(k_.methods['save_instance_state'])).items():
+                for key, attrs in saved_bindings(chk.ctx, prog.view(k_.vmethods['save_instance_state'])).items():
                     sb.setdefault(key, set()).update(attrs)
         saved_attrs = set().union(*sb.values()) if sb else set()
-        for attr, _, _ in captured_fields(c.methods['__init__']):
+        for attr, _, _ in captured_fields(c.vmethods['__init__']):
             if attr not in auto and attr not in saved_attrs:
                 incomplete.append(f'{c.name}.{attr}')
     chk.units['command_fields_not_persisted'] = incomplete
@@ -377,7 +377,7 @@ def resume_value_forwarding(chk: Check, rule: str) -> None:
     # and no Waiting state builds RUNNING without having awaited the waiting future (directly or through super().execute())
     wbase = prog.cls('process_states.Waiting')
     for sc in prog.subclasses(wbase):
-        ex2 = sc.methods.get('execute')
+        ex2 = sc.vmethods.get('execute')
         if ex2 is None:
             continue
         f2 = chk.ctx.facts.analyse(ex2)
@@ -412,7 +412,7 @@ def resume_value_forwarding(chk: Check, rule: str) -> None:
     # "f() if resumed without a value" is decided by ``value == NULL``: the sentinel must equal nothing but itself
     nul = [c for c in prog.all_classes() if c.module.short == 'lang' and c.name.strip('_') == 'NULL']
     for c in nul:
-        eq = c.methods.get('__eq__')
+        eq = c.vmethods.get('__eq__')
         if eq is None:
             chk.ob(rule, c.qualname, True, 'the no-value sentinel compares by identity', kind='null-equals-only-itself', expr='__eq__')
             continue
@@ -457,7 +457,8 @@ def resume_value_reaches_future(chk: Check, rule: str) -> None:
     # (a subclass may add its own wake-up -- the workchain's awaitable completion resolves the future with NULL, that is
     # C10's mechanism; the rule is about the base state, where resume() is the only source of a result)
     for c in [w]:
-        for f in c.methods.values():
+        for f in c.vmethods.values():
+            f = prog.view(f)   # (the same view ``mine`` was collected from: call nodes are compared by identity)
             for s in writer_sites(chk.ctx, f, [LOC]):
                 if f.name == 'exit':
                     continue   # releasing a step that is still blocked when the state is LEFT: the state is no longer current, what that step returns is discarded (C02 / C03 rule FUT-wait-release)
